@@ -36,6 +36,7 @@ structure IOpd where
   isz : Nat
   vals : Array Int
   mask : MaskRep
+  item : List Nat      -- item shape (numerator and denominator axes); `[isz]` when the request does not carry it
 
 def parseI : Sx → Option IOpd
   | .list [sh, isz, vs, m] => do
@@ -43,8 +44,19 @@ def parseI : Sx → Option IOpd
     let isz ← isz.toNat?
     let vals ← vs.ints?
     let mask ← parseMask m
-    some ⟨shape, isz, vals.toArray, mask⟩
+    some ⟨shape, isz, vals.toArray, mask, [isz]⟩
+  | .list [sh, isz, vs, m, it] => do
+    let shape ← sh.nats?
+    let isz ← isz.toNat?
+    let vals ← vs.ints?
+    let mask ← parseMask m
+    let item ← it.nats?
+    some ⟨shape, isz, vals.toArray, mask, item⟩
   | _ => none
+
+def cmpSx : CmpRes → Sx
+  | .whole b => .list [Sx.ofNats [], .list [t3Sx (if b then .t else .f)]]
+  | .elems r => .list [Sx.ofNats r.shape, .list (r.toList.map fun b => t3Sx (if b then .t else .f))]
 
 def IOpd.arr (o : IOpd) : Arr ICell :=
   ⟨o.shape, fun i => ⟨itemAt o.vals o.shape o.isz i, o.mask.at o.shape i⟩⟩
@@ -102,16 +114,12 @@ def handle : List Sx → Sx
   | [.atom "eq", a, b] =>
     match parseI a, parseI b with
     | some a, some b =>
-      match Arr.map2 eqCode a.arr b.arr with
-      | some r => boolArr r
-      | none => .atom "incompatible"
+      cmpSx (eqTop a.item b.item a.arr b.arr)
     | _, _ => err "operand"
   | [.atom "ne", a, b] =>
     match parseI a, parseI b with
     | some a, some b =>
-      match Arr.map2 neCode a.arr b.arr with
-      | some r => boolArr r
-      | none => .atom "incompatible"
+      cmpSx (neTop a.item b.item a.arr b.arr)
     | _, _ => err "operand"
   | [.atom "ord", .atom o, a, b] =>
     match parseOrd o, parseI a, parseI b with
